@@ -599,6 +599,17 @@ func (p *connectedPlayer) connectedServer() *serverConnection {
 	return p.connectedServer_
 }
 
+// connectedServerOr returns the connected server or, if there is none and
+// orInFlight is true, the connection in flight - in one critical section.
+func (p *connectedPlayer) connectedServerOr(orInFlight bool) *serverConnection {
+	p.mu.RLock()
+	defer p.mu.RUnlock()
+	if p.connectedServer_ == nil && orInFlight {
+		return p.connInFlight
+	}
+	return p.connectedServer_
+}
+
 func (p *connectedPlayer) Username() string { return p.profile.Name }
 
 func (p *connectedPlayer) ID() uuid.UUID { return p.profile.ID }
